@@ -163,7 +163,7 @@ fn kind_of(sp: &Special) -> Option<(OwnKind, u32, bool)> {
     // (request kind, original id, single-use)
     match sp {
         Special::OwnSingle { id, .. } => Some((OwnKind::Single, *id, true)),
-        Special::OwnMulti { id, .. } => Some((OwnKind::Multi, *id, false)),
+        Special::OwnMulti { id, .. } | Special::OwnMultiThen { id, .. } => Some((OwnKind::Multi, *id, false)),
         Special::OwnOpt { id } => Some((OwnKind::Opt, *id, true)),
         Special::OwnRes { id } => Some((OwnKind::Res, *id, true)),
         Special::OwnTup { id, .. } => Some((OwnKind::Tup, *id, false)),
@@ -205,6 +205,10 @@ pub fn gen_c12(base_seed: u64, batch: &str, run: u64, rng: &mut Rng) -> Scenario
         if !*each_call && matches!(quant, Quant::Unq | Quant::Once) {
             *quant = Quant::N(2);
         }
+    }
+    // a chain of two stored values: the first one is done after n deliveries and still stays stored
+    if rng.chance(1, 3) {
+        pool[1] = Special::OwnMultiThen { n: rng.range(1, 3) as u32, each_call: rng.chance(1, 2), id: 102, id2: 115 };
     }
     rng.shuffle(&mut pool);
     pool.truncate(rng.range(1, 3));
@@ -368,7 +372,12 @@ pub fn check_c12(scn: &Scenario) -> Checked {
             if let Special::OwnMulti { each_call: false, quant: Quant::Unq | Quant::Once, .. } = sp {
                 bound = Some(2);
             }
-            let my_clones = clones_of.get(&id).cloned().unwrap_or_default();
+            let mut my_clones = clones_of.get(&id).cloned().unwrap_or_default();
+            let mut stored = vec![id];
+            if let Special::OwnMultiThen { id2, .. } = sp {
+                my_clones.extend(clones_of.get(id2).cloned().unwrap_or_default());
+                stored.push(*id2);
+            }
             let mut successes = 0u32;
             for (k, o) in reqs.iter().enumerate() {
                 match &o.result {
@@ -393,10 +402,12 @@ pub fn check_c12(scn: &Scenario) -> Checked {
             }
             let _ = successes;
             // the stored original is released only by a teardown (or by the harness at the end)
-            if let Some(d) = drops.get(&id).and_then(|d| d.first()) {
-                let ok = d.step == u64::MAX || teardown.iter().any(|(s, e)| *s <= d.step && d.step <= *e) || d.panicking;
-                if !ok {
-                    violations.push(v("C12", "stored-value-intact-until-teardown", key.clone(), format!("the stored multi-use value {id} was dropped at step {} outside any teardown", d.step)));
+            for id in stored {
+                if let Some(d) = drops.get(&id).and_then(|d| d.first()) {
+                    let ok = d.step == u64::MAX || teardown.iter().any(|(s, e)| *s <= d.step && d.step <= *e) || d.panicking;
+                    if !ok {
+                        violations.push(v("C12", "stored-value-intact-until-teardown", key.clone(), format!("the stored multi-use value {id} was dropped at step {} outside any teardown", d.step)));
+                    }
                 }
             }
         }
